@@ -49,6 +49,17 @@ def _strided(a):
     return v
 
 
+def _as_native_complex(cfg, arr):
+    """the same values as a native complex64 / complex128 array (what a DSP chain hands over), whatever element
+    byte order and complex style the channel was declared with"""
+    rd = cfg.real_dtype
+    nat = np.dtype("f%d" % rd.itemsize)
+    N = arr.shape[0]
+    flat = np.ascontiguousarray(arr).reshape(N, -1).view(rd).reshape(N, cfg.nsub, 2)
+    out = flat.astype(nat)   # byte swap only: bit patterns of the values are kept
+    return np.ascontiguousarray(out).view("c%d" % (2 * rd.itemsize)).reshape(N, cfg.nsub)
+
+
 def do_op(w, cfg, op):
     """execute one write op (valid or invalid) -> return value; raises what the API raises"""
     k = op["op"]
@@ -58,6 +69,8 @@ def do_op(w, cfg, op):
         arr = M.input_array(cfg, bits)
         if op.get("layout") == "data_strided":
             arr = _strided(arr)
+        elif op.get("layout") == "as_complex":
+            arr = _as_native_complex(cfg, arr)
         if op["rel"] is None:
             return int(w.rf_write(arr))
         return int(w.rf_write(arr, op["rel"]))
@@ -83,6 +96,8 @@ def do_op(w, cfg, op):
             ba = _strided(ba)
         elif lay == "data_strided":
             arr = _strided(arr)
+        elif lay == "as_complex":
+            arr = _as_native_complex(cfg, arr)
         return int(w.rf_write_blocks(arr, ga, ba))
     raise ValueError("unknown op %r" % k)
 
